@@ -91,7 +91,7 @@ def fmtOut4 : Out4 → String
 
 def step4 (op res : String) : List String :=
   match words op, splitSemi res with
-  | ["dg4", bound, oob, chain, _], [parsed, outW, invW] =>
+  | "dg4" :: bound :: oob :: chain :: _, [parsed, outW, invW] =>    -- optional: UDP source address and port (no model input)
     match bound.toNat?, parsed with
     | some bound, tag :: fields0 =>
       let fields := fields0.take 10
